@@ -7,4 +7,6 @@ var checks = map[string]check{
 		Floors: map[string]int64{"byzrbc.byzantine_deliveries": 1000, "byzrbc.handovers": 1000, "byzorch.byzantine_deliveries": 500, "byzorch.handovers": 300}},
 	"C04": {ID: "C04", Level: "exploration", Units: []unit{u("hcore", "c04rbc", 6, 16), u("hcore", "c04orch", 8, 16)},
 		Floors: map[string]int64{"c04rbc.handovers": 1000, "c04rbc.ack_before_payload": 100, "c04orch.handovers": 500}},
+	"C14": {ID: "C14", Level: "exploration", Units: []unit{u("hcore", "c14ctl", 11, 11), u("hcore", "c14stress", 2, 4)},
+		Floors: map[string]int64{"c14ctl.handoffs": 500, "c14ctl.schedules": 300, "c14stress.handoffs": 1000}},
 }
